@@ -14,6 +14,8 @@ import (
 type UDPSend struct {
 	Data  []byte
 	Delay time.Duration // before sending
+	// ToSock2: send to the world's second socket (if it has one)
+	ToSock2 bool
 }
 
 type UDPClientPlan struct {
@@ -37,6 +39,8 @@ type UDPWorld struct {
 	Clients  []*UDPClient
 	ServeErr error
 	Served   bool
+	// Sock2: an optional second socket served by the same Server (one loop per socket)
+	Sock2 *simnet.PacketSock
 	// LastSendAt: simulated time at which the last client finished sending
 	LastSendAt time.Duration
 }
@@ -57,6 +61,16 @@ func (e *Env) NewUDPWorld(routes layer4.RouteList, timeout time.Duration) *UDPWo
 	return w
 }
 
+// AddSocket starts a second packet loop of the same Server on another local address.
+func (w *UDPWorld) AddSocket() {
+	e := w.E
+	w.Sock2 = e.N.ListenPacket("usock2", simnet.UDPAddr("10.0.0.1", 54))
+	e.S.Go("usrv2", func() { _ = w.Srv.VerifServePacket(w.Sock2) })
+	e.S.OnCleanup(func() {
+		e.S.Go("ucloser2", func() { _ = w.Sock2.Close() })
+	})
+}
+
 func (w *UDPWorld) StartClient(p *UDPClientPlan) *UDPClient {
 	c := &UDPClient{Plan: p}
 	w.Clients = append(w.Clients, c)
@@ -65,7 +79,11 @@ func (w *UDPWorld) StartClient(p *UDPClientPlan) *UDPClient {
 			if s.Delay > 0 {
 				time.Sleep(s.Delay)
 			}
-			w.Sock.Send(p.Addr, s.Data, p.Faults)
+			if s.ToSock2 && w.Sock2 != nil {
+				w.Sock2.Send(p.Addr, s.Data, p.Faults)
+			} else {
+				w.Sock.Send(p.Addr, s.Data, p.Faults)
+			}
 			lk()
 			c.Sent++
 			ulk()
@@ -92,13 +110,17 @@ func (w *UDPWorld) Done() bool {
 		}
 	}
 	ulk()
-	if w.Sock.QueueLen() > 0 {
+	if w.Sock.QueueLen() > 0 || (w.Sock2 != nil && w.Sock2.QueueLen() > 0) {
 		return false
 	}
 	for _, n := range w.E.S.Live() {
-		if len(n) > 5 && n[:5] == "usrv." && n != "usrv.1" {
+		pl := 5
+		if len(n) > 6 && n[:6] == "usrv2." {
+			pl = 6
+		}
+		if len(n) > pl && (n[:pl] == "usrv." || n[:pl] == "usrv2.") && n != "usrv.1" && n != "usrv2.1" {
 			direct := true
-			for i := 5; i < len(n); i++ {
+			for i := pl; i < len(n); i++ {
 				if n[i] < '0' || n[i] > '9' {
 					direct = false
 				}
